@@ -11,7 +11,8 @@
 EXTENDS Snow, Json
 
 CONSTANTS PatSetS, PskSetS,   \* patterns, and psk sets (as a set of sets) to explore
-          Depth, MaxFail, EmitEdges
+          Depth, MaxFail, EmitEdges,
+          HfsS                \* BOOLEAN: names with the hfs modifier (interactive patterns, hfs build)
 
 VARIABLES prm, wire, prev, cnt
 svars == <<vars, prm, wire, prev, cnt>>
@@ -37,7 +38,8 @@ BuildStep(id, role, pp) ==
 Init ==
   /\ \E p \in PatSetS, ps \in PskSetS :
        /\ ValidPskSet(p, ps)
-       /\ prm = [pp |-> PP(p, ps, 32, FALSE)]
+       /\ (HfsS => HfsApplies(p))
+       /\ prm = [pp |-> PPH(p, ps, 32, FALSE, HfsS)]
   /\ ep = [id \in Ids |-> [mode |-> "hs", st |-> Initialize(id, IF id = "I" THEN "i" ELSE "r", prm.pp,
                                                            CfgS(IF id = "I" THEN "i" ELSE "r", prm.pp))]]
   /\ hist = <<BuildStep("I", "i", prm.pp), BuildStep("R", "r", prm.pp)>>
